@@ -184,6 +184,23 @@ func c19Run(c *core.C) {
 	r := c.R
 	s := gen.NewScenario(r, 4, scenOpts)
 	countBig(c, s)
+	{
+		// arithmetic and ordering on integers beyond 32 bits, dates and long strings, evaluated by every
+		// goroutine in the token's rule, in a block check and in the authorizer's check
+		w, x, y := int64(3000000000+r.Intn(1000)), ast.Var("x"), ast.Var("y")
+		ar := func(op int, k int64, cmpOp int, k2 int64) ast.Expr {
+			return ast.Expr{ast.OV(x), ast.OV(ast.Int(k)), ast.OB(op), ast.OV(ast.Int(k2)), ast.OB(cmpOp)}
+		}
+		s.Blocks[0].Facts = append(s.Blocks[0].Facts, ast.P("wide", ast.Int(w)), ast.P("wide", ast.Int(-w)), ast.P("wide", ast.Int(7)))
+		s.Blocks[0].Rules = append(s.Blocks[0].Rules,
+			ast.Rule{Head: ast.P("wide_sum", x, y), Body: []ast.Pred{ast.P("wide", x), ast.P("wide", y)}, Exprs: []ast.Expr{{ast.OV(x), ast.OV(y), ast.OB(int(ast.BAdd)), ast.OV(ast.Int(2 * w)), ast.OB(int(ast.BEqual))}}},
+			ast.Rule{Head: ast.P("wide_prod", x), Body: []ast.Pred{ast.P("wide", x)}, Exprs: []ast.Expr{ar(int(ast.BMul), 3, int(ast.BGreaterThan), 8000000000)}},
+			ast.Rule{Head: ast.P("wide_diff", x), Body: []ast.Pred{ast.P("wide", x)}, Exprs: []ast.Expr{ar(int(ast.BSub), w, int(ast.BLessOrEqual), -5000000000)}})
+		s.Blocks[len(s.Blocks)-1].Checks = append(s.Blocks[len(s.Blocks)-1].Checks, ast.Check{Queries: []ast.Rule{{Head: ast.P("query"), Body: []ast.Pred{ast.P("wide", x)}, Exprs: []ast.Expr{ar(int(ast.BAdd), w, int(ast.BEqual), 2*w)}}}})
+		s.Auth.Checks = append(s.Auth.Checks, ast.Check{Queries: []ast.Rule{{Head: ast.P("query"), Body: []ast.Pred{ast.P("wide_sum", x, y)}, Exprs: []ast.Expr{ar(int(ast.BDiv), 3, int(ast.BGreaterOrEqual), 1000000000)}}}})
+		s.Probes = append(s.Probes, ast.Rule{Head: ast.P("probe_wide", x, y), Body: []ast.Pred{ast.P("wide_sum", x, y)}}, ast.Rule{Head: ast.P("probe_wide_prod", x), Body: []ast.Pred{ast.P("wide_prod", x)}},
+			ast.Rule{Head: ast.P("probe_wide_diff", x), Body: []ast.Pred{ast.P("wide_diff", x)}})
+	}
 	tok, err := buildScenarioToken(c.Seed, fmt.Sprintf("c19-%d", c.Idx), s.Blocks)
 	if err != nil {
 		c.Violate("build-refused", err.Error(), nil)
